@@ -817,6 +817,13 @@ impl<'d, 'a> ZRun<'d, 'a> {
         let mut seen: BTreeSet<&'static str> = BTreeSet::new();
         for (which, detail) in bad {
             if seen.insert(which) {
+                // `backward`, `tail`, `free_slots` are written but never read by any public function
+                // (the arena indices are not observable either): an inconsistency there cannot reach
+                // a command's reply — recorded in the evidence, not a violation of the property
+                if matches!(which, "backward" | "tail" | "free-slots" | "free-slots-duplicate") {
+                    self.d.out.count(&format!("data:z:dead-state-inconsistent:{}", which));
+                    continue;
+                }
                 self.viol(&format!("skiplist-invariant:{}", which), format!("after {}: {}", op, detail), op);
             }
         }
